@@ -9,6 +9,9 @@
 package dtls
 
 import (
+	"bytes"
+	"crypto/x509"
+	"errors"
 	"fmt"
 	"testing"
 
@@ -18,6 +21,8 @@ import (
 	"github.com/pion/dtls/v3/pkg/protocol/handshake"
 	"github.com/pion/dtls/v3/pkg/protocol/recordlayer"
 )
+
+var errC11Refused = errors.New("verif c11: the application refuses this peer")
 
 // c11RewriteFirstHello returns the datagram with its ClientHello (no cookie, message_seq 0, one unfragmented
 // record) rewritten by f, or nil when the datagram is not such a ClientHello.
@@ -56,9 +61,15 @@ func c11RewriteFirstHello(data []byte, f func(m *handshake.MessageClientHello) b
 
 // c11SteerApply installs what res.Steer asks for: the rogue ServerHello hook on the server's configuration and
 // the on-path rewriter (returned; nil when there is none).
-func c11SteerApply(res *c11Case, _ *dtlsConfig, scfg *dtlsConfig) func(vDatagram) [][]byte {
+func c11SteerApply(res *c11Case, ccfg *dtlsConfig, scfg *dtlsConfig) func(vDatagram) [][]byte {
 	st := res.Steer
-	if st.SHALPN > 0 || st.SHSuite > 0 {
+	switch st.Refuse {
+	case 1:
+		ccfg.VerifyPeerCertificate = func([][]byte, [][]*x509.Certificate) error { return errC11Refused }
+	case 2:
+		ccfg.verifyConnection = func(*State) error { return errC11Refused }
+	}
+	if st.SHALPN > 0 || st.SHSuite > 0 || st.SHSessionID {
 		name := fmt.Sprintf("p%d", st.SHALPN)
 		scfg.ServerHelloMessageHook = func(sh handshake.MessageServerHello) handshake.Message {
 			if st.SHALPN > 0 {
@@ -81,6 +92,9 @@ func c11SteerApply(res *c11Case, _ *dtlsConfig, scfg *dtlsConfig) func(vDatagram
 			if st.SHSuite > 0 {
 				id := uint16(st.SHSuite)
 				sh.CipherSuiteID = &id
+			}
+			if st.SHSessionID {
+				sh.SessionID = bytes.Repeat([]byte{0xAB}, 32)
 			}
 			res.Steer.Applied++
 
@@ -240,6 +254,57 @@ func c11SteerFixed() []c11SteerJob {
 		s.Key = 2
 		o.Steer.SHSuite = 0xc02b
 	})
+	// ---- the hook renames the session: both sides must name it alike and the next connection must resume (full
+	// handshake); on a resumption the echoed id is the signal, a changed id is refused
+	add("hook-rewrites-session-id", false, func(c, s *c11Cfg, o *c11Opt) {
+		s.Key = 1
+		c.Store, s.Store = true, true
+		o.Steer.SHSessionID = true
+	})
+	add("hook-rewrites-session-id-psk", false, func(c, s *c11Cfg, o *c11Opt) {
+		c.PSK, c.Hint, s.PSK, s.Hint = true, true, true, true
+		c.SuitesSet, c.Suites, s.SuitesSet, s.Suites = true, []int{0x00a8}, true, []int{0x00a8}
+		c.Store, s.Store = true, true
+		c.CID, s.CID = 4, 4
+		o.Steer.SHSessionID = true
+	})
+	add("hook-rewrites-session-id-and-alpn", false, func(c, s *c11Cfg, o *c11Opt) {
+		s.Key = 2
+		c.Store, s.Store = true, true
+		c.ALPN, s.ALPN = []int{1, 2}, []int{1, 2}
+		o.Steer.SHSessionID, o.Steer.SHALPN = true, 2
+	})
+	add("hook-rewrites-session-id-resumed", true, func(c, s *c11Cfg, o *c11Opt) {
+		s.Key = 1
+		c.Store, s.Store = true, true
+		o.Steer.SHSessionID = true
+		c0, s0 := *c, *s
+		o.SeedC, o.SeedS = &c0, &s0
+	})
+	// ---- a client that REFUSES the server's flight while connection IDs are negotiated: the alert must reach the
+	// server.  DTLS 1.3: abortFlight3 clears the connection IDs before the alert is written (known finding)
+	for _, v := range []int{3, 2} {
+		for _, cids := range [][2]int{{0, 4}, {4, 8}, {4, 0}} {
+			for kind := 0; kind <= 2; kind++ {
+				v, cids, kind := v, cids, kind
+				what := []string{"certificate-name", "verify-peer-certificate", "verify-connection"}[kind]
+				name := fmt.Sprintf("cid-client-refuses-%s-dtls1%d-cid%d-%d", what, v, cids[0], cids[1])
+				if v == 2 || cids[1] == 0 {
+					name = "control-" + name
+				}
+				add(name, false, func(c, s *c11Cfg, o *c11Opt) {
+					s.Key = 2
+					c.Min, c.Max, s.Min, s.Max = v, v, v, v
+					c.CID, s.CID = cids[0], cids[1]
+					if kind == 0 {
+						c.SNI = 1
+					} else {
+						o.Steer.Refuse = kind
+					}
+				})
+			}
+		}
+	}
 	// ---- on-path rewriting of the first ClientHello only (hello verification on)
 	add("ch1-groups-cert", false, func(c, s *c11Cfg, o *c11Opt) {
 		s.Key = 1
